@@ -110,7 +110,47 @@ func (k c03) Run(c *rt.Ctx) {
 	style := gen.Style{Paren: []int{0, 0, 1, 3}[r.Intn(4)], R: r.Fork(), Case: r.Chance(1, 4)}
 	query := stmt.Text(style)
 	sizes := []int{pickBatch(c), pickBatch(c), pickBatch(c)}
-	if r.Chance(1, 10) {
+	if r.Chance(1, 14) {
+		// float group values that agree in six decimals, or are the two zeros: both modes form
+		// the same groups
+		c.Rec.Inc("close_float_groups")
+		vals := []string{"0.1", "0.1000001", "0.10000004", "0", "-0", "-0.0", "2.5", "2.5000001", "7"}
+		var ps []refstore.Pair
+		for i, n := 0, r.Range(5, 40); i < n; i++ {
+			ps = append(ps, refstore.Pair{K: fmt.Sprintf("g%02d", i), V: vals[r.Intn(len(vals))]})
+		}
+		st = &gen.Store{Family: "closefloats", Pairs: refstore.New(ps).Pairs()}
+		f := gen.Call("float", gen.Value())
+		stmt = &gen.Stmt{Kind: "select", Where: gen.Bin("^=", gen.Key(), gen.Str("g")), Fields: []gen.Field{{E: f, Alias: "f"}, {E: gen.Call("count", gen.Int(1)), Alias: "c"}}, GroupBy: []string{"f"}}
+		if r.Bool() {
+			stmt.Fields = append(stmt.Fields, gen.Field{E: gen.Call("sum", gen.Call("strlen", gen.Key())), Alias: "s"})
+		}
+		if r.Chance(1, 3) {
+			stmt.OrderBy = []gen.OrderItem{{Name: "c", Desc: r.Bool()}, {Name: "f"}}
+		}
+		query = stmt.Text(gen.Plain)
+	} else if r.Chance(1, 14) {
+		// membership in a list made per pair: a match followed by a non-match inside one chunk
+		c.Rec.Inc("in_over_function_lists")
+		var ps []refstore.Pair
+		tags := []string{"red,blue", "green", "blue", "red", "blue,green,red", "x", "green,blue"}
+		for i, n := 0, r.Range(6, 30); i < n; i++ {
+			ps = append(ps, refstore.Pair{K: fmt.Sprintf("t%02d", i), V: tags[r.Intn(len(tags))]})
+		}
+		st = &gen.Store{Family: "tags", Pairs: refstore.New(ps).Pairs()}
+		lst := gen.Call("split", gen.Value(), gen.Str(","))
+		var w *gen.Node
+		switch r.Intn(3) {
+		case 0:
+			w = gen.InExpr(gen.Str([]string{"blue", "red", "green"}[r.Intn(3)]), lst)
+		case 1:
+			w = gen.InExpr(gen.Call("strlen", gen.Value()), gen.Call("list", gen.Int(3), gen.Int(4), gen.Int(8)))
+		default:
+			w = gen.And(gen.Bin("^=", gen.Key(), gen.Str("t")), gen.InExpr(gen.Str("blue"), gen.Ref("tags", lst)))
+		}
+		stmt = &gen.Stmt{Kind: "select", Where: w, Fields: []gen.Field{{E: gen.Key()}, {E: lst, Alias: "tags"}}}
+		query = stmt.Text(gen.Plain)
+	} else if r.Chance(1, 10) {
 		// runs: whole chunks on which the left operand of & / | decides every pair, then a
 		// chunk where the right operand (a named field) decides; small batch sizes
 		c.Rec.Inc("run_structured_stores")
